@@ -1024,7 +1024,7 @@ PROPS = {
              " Four of the valid heads end their lines with a bare LF (all lines, the last one only, the first one only, no header at all); the driver's concrete parser ends the head at its first empty line, CR LF or LF"
              " Three origin-form targets with a query (authority from Host); the recognised URI's path and query are compared with the target as the client wrote it"
              " The encoders (door encode_response_bytes / encode_request_bytes): 300 (thorough 2000) heads with 0-6 header lines over 7 names, names repeated: every line is written once, the lines of a name in their order, the head ends with one empty line",
-        explanation="theorems head_segmentation_invariant, payload_exact, incomplete_head_waits, no_spin, head_bounded, oversize_rejected, "
+        explanation="theorems head_segmentation_invariant, payload_exact, incomplete_head_waits, no_spin, head_bounded, oversize_rejected, eof_before_complete_head_closes, head_across_a_pause, "
                     "response_wellformed about TT/Model/H1.lean under the hypothesis PrefixConsistent(parser)"
                     "; relaying_goes_on, relayed_until_close, session_ends_with_either_side, abort_is_not_graceful, "
                     "upload_without_source_fails about the relaying loop (TT/Model/H1Relay.lean)",
